@@ -217,3 +217,309 @@ Proof.
   repeat (first [apply Forall_nil | apply Forall_cons | split]);
     apply E; vm_compute; reflexivity.
 Qed.
+
+(* ======================================================================== *)
+(* ---- responses are never abandoned (acyclic graphs) ------------------------ *)
+
+(* In the response direction no processor "answers the request", so the only
+   way to abandon a response in the model is fuel exhaustion - excluded on
+   acyclic graphs.  C04_system_order_response without its premise. *)
+Theorem C04_response_order_acyclic : forall fuel beh s sc,
+  sel_ok fuel s ->
+  run_res fuel beh s sc = (res_order fuel beh s sc, None).
+Proof.
+  intros fuel beh s sc A. destruct (snd (run_res fuel beh s sc)) as [o|] eqn:E.
+  - exfalso. pose proof (run_res_outcome fuel beh s sc o E). subst o.
+    exact (run_res_not_stuck fuel beh s sc A E).
+  - rewrite <- (run_res_order fuel beh s sc E), <- E. destruct (run_res fuel beh s sc); reflexivity.
+Qed.
+Print Assumptions C04_response_order_acyclic.
+
+(* ---- clause 5: "the response path continues from that processor's response
+   connection" ------------------------------------------------------------------ *)
+
+(* Request not abandoned in which processor h of user flow f answered, and f is
+   among the user flows found when the transaction is looked up again as a
+   response (s'; flow names unique there): the trace is the request part
+   followed by the response part in which f contributes - exactly once, at its
+   place in the reversed selection - the walk from the targets of ALL response
+   connections of h ([flow_events Res (Some h) f], h itself not executed again),
+   and every other flow runs from its entry point. *)
+Theorem C04_response_continues : forall fuel beh s s' f h,
+  snd (run_req fuel beh s (Some s')) = None ->
+  snd (users_prefix fuel beh (s_user s)) = Some (fname f, h) ->
+  In f (s_user s') -> NoDup (map fname (s_user s')) ->
+  exists us1 us2,
+    rev (s_user s') = us1 ++ f :: us2
+    /\ ~ In (fname f) (map fname us1) /\ ~ In (fname f) (map fname us2)
+    /\ fst (run_req fuel beh s (Some s'))
+       = flat_map (flow_events fuel beh Req None) (s_start s)
+         ++ flat_map (flow_events fuel beh Req None) (fst (users_prefix fuel beh (s_user s)))
+         ++ flat_map (flow_events fuel beh Req None) (s_end s)
+         ++ flat_map (flow_events fuel beh Res None) (rev (s_start s'))
+         ++ (flat_map (flow_events fuel beh Res None) us1
+             ++ flow_events fuel beh Res (Some h) f
+             ++ flat_map (flow_events fuel beh Res None) us2)
+         ++ flat_map (flow_events fuel beh Res None) (rev (s_end s')).
+Proof.
+  intros fuel beh s s' f h NE H I N.
+  destruct (res_order_continues fuel beh s' f h I N) as [us1 [us2 [E [N1 [N2 R]]]]].
+  exists us1, us2. split; [exact E|]. split; [exact N1|]. split; [exact N2|].
+  rewrite (run_req_order fuel beh s (Some s') NE). unfold req_order. rewrite H, R. reflexivity.
+Qed.
+Print Assumptions C04_response_continues.
+
+(* ... and what the continuation consists of: the processors reached from the
+   targets of h's response connections (whatever their condition), following
+   the output conditions from there on. *)
+Theorem C04_continuation_path : forall fuel beh f h ev,
+  In ev (flow_events fuel beh Res (Some h) f) ->
+  e_flow ev = fname f /\ e_dir ev = Res
+  /\ e_cond ev = fst (beh (fname f) (e_key ev) Res)
+  /\ exists c t, In (c, Some t) (edges_of (fres f) h)
+                 /\ on_path (fres f) Res (beh (fname f)) t (e_key ev).
+Proof.
+  intros fuel beh f h ev I. unfold flow_events, flow_walk in I.
+  rewrite <- (flow_impl_is_spec fuel f Res (Some h) (beh (fname f))) in I by (right; reflexivity).
+  unfold tag in I. apply in_map_iff in I. destruct I as [[k c] [E I]]. subst ev. cbn.
+  destruct (flow_on_path _ _ _ _ _ _ _ I) as [C P]. cbn [gdir] in P. auto.
+Qed.
+Print Assumptions C04_continuation_path.
+
+(* The two conditions under which nothing continues (the selection for the
+   response lookup is an INPUT of this unit - C03's business; EndToEndProperty.v
+   says exactly when the answering flow is found again): no flow found at all,
+   or the answering flow not among them - then every flow found runs from its
+   entry point, as for a plain response. *)
+Theorem C04_no_continuation_unless_reselected : forall fuel beh s n h,
+  snd (users_prefix fuel beh (s_user s)) = Some (n, h) ->
+  (snd (run_req fuel beh s None) = None ->
+     fst (run_req fuel beh s None)
+     = flat_map (flow_events fuel beh Req None) (s_start s)
+       ++ flat_map (flow_events fuel beh Req None) (fst (users_prefix fuel beh (s_user s)))
+       ++ flat_map (flow_events fuel beh Req None) (s_end s))
+  /\ (forall s', ~ In n (map fname (s_user s')) ->
+      snd (run_req fuel beh s (Some s')) = None ->
+      fst (run_req fuel beh s (Some s'))
+      = flat_map (flow_events fuel beh Req None) (s_start s)
+        ++ flat_map (flow_events fuel beh Req None) (fst (users_prefix fuel beh (s_user s)))
+        ++ flat_map (flow_events fuel beh Req None) (s_end s)
+        ++ res_order fuel beh s' None).
+Proof.
+  intros fuel beh s n h H. split.
+  - intros NE. rewrite (run_req_order fuel beh s None NE). unfold req_order. rewrite H, app_nil_r.
+    reflexivity.
+  - intros s' N NE. rewrite (run_req_order fuel beh s (Some s') NE). unfold req_order.
+    rewrite H, (res_order_not_reselected fuel beh s' n h N). reflexivity.
+Qed.
+Print Assumptions C04_no_continuation_unless_reselected.
+
+(* ---- open finding F-C04d: the answer of a processor that has no node on the
+   response side of its flow is dropped ------------------------------------------ *)
+
+(* The property, read for every accepted graph: an answering processor ends the
+   request path and the request IS answered (nothing continues in that flow when
+   it has no response connection): the transaction is never abandoned and runs
+   [req_order_text]. *)
+Definition C04_answered_request_full : Prop :=
+  forall fuel beh s s2,
+    sel_ok fuel s -> (forall s', s2 = Some s' -> sel_ok fuel s') ->
+    run_req fuel beh s s2 = (req_order_text fuel beh s s2, None).
+
+(* witness: the flows of C04_order_witness, but Gen (2) of flow 1 has no node on
+   the response side *)
+Definition d_res : dgraph := {| root := None; nodes := [(4, [(1, None)])] |}.
+Definition d_flows : list flow :=
+  [ {| fname := 100; freq := {| root := Some 10; nodes := [(10, [(0, None)])] |};
+       fres := {| root := None; nodes := [] |} |};
+    {| fname := 1; freq := w_req; fres := d_res |};
+    {| fname := 2; freq := {| root := Some 5; nodes := [(5, [(1, None)])] |};
+       fres := {| root := Some 6; nodes := [(6, [(1, None)])] |} |};
+    {| fname := 101; freq := {| root := None; nodes := [] |};
+       fres := {| root := Some 11; nodes := [(11, [(0, None)])] |} |} ].
+Definition d_sel : selection :=
+  {| s_start := flows_named d_flows [100]; s_user := flows_named d_flows [1; 2];
+     s_end := flows_named d_flows [101] |}.
+
+Lemma d_sel_ok : sel_ok 6 d_sel.
+Proof.
+  assert (E : forall g, rankedb g w_rk = true -> dir_ok 6 g).
+  { intros g H. exists w_rk. split.
+    - apply rankedb_sound. exact H.
+    - intros k. unfold w_rk. apply Nat.mod_upper_bound. discriminate. }
+  unfold sel_ok, flow_ok. cbn.
+  repeat (first [apply Forall_nil | apply Forall_cons | split]);
+    apply E; vm_compute; reflexivity.
+Qed.
+
+(* what the code does (error, the answer dropped, nothing after it) and what the
+   text asks for (answered; flow 2 and the end-system flow see the response) *)
+Example C04_dropped_answer_witness :
+  run_req 6 w_behs d_sel (Some d_sel)
+  = ([ {| e_flow := 100; e_key := 10; e_dir := Req; e_cond := 0 |};
+       {| e_flow := 1; e_key := 1; e_dir := Req; e_cond := 1 |};
+       {| e_flow := 1; e_key := 2; e_dir := Req; e_cond := 0 |} ], Some (NoRespNode 2))
+  /\ req_order_text 6 w_behs d_sel (Some d_sel)
+     = [ {| e_flow := 100; e_key := 10; e_dir := Req; e_cond := 0 |};
+         {| e_flow := 1; e_key := 1; e_dir := Req; e_cond := 1 |};
+         {| e_flow := 1; e_key := 2; e_dir := Req; e_cond := 0 |};
+         {| e_flow := 2; e_key := 6; e_dir := Res; e_cond := 1 |};
+         {| e_flow := 101; e_key := 11; e_dir := Res; e_cond := 0 |} ]
+  /\ answer_dropped w_behs (sel_flows d_sel) (fst (run_req 6 w_behs d_sel (Some d_sel))) = true.
+Proof. vm_compute. repeat split; reflexivity. Qed.
+
+Theorem C04_answered_request_full_refuted : ~ C04_answered_request_full.
+Proof.
+  intros H. specialize (H 6%nat w_behs d_sel (Some d_sel) d_sel_ok).
+  assert (S2 : forall s', Some d_sel = Some s' -> sel_ok 6 s')
+    by (intros s' E; inversion E; subst; exact d_sel_ok).
+  specialize (H S2). vm_compute in H. discriminate.
+Qed.
+Print Assumptions C04_answered_request_full_refuted.
+
+(* Outside the finding - no executed request-direction processor answered
+   without having a node on the response side of its flow ([answer_dropped],
+   decidable; it is what the monitor computes over the observed events) - and on
+   acyclic graphs the statement holds: never abandoned, the order of the text,
+   which is then [req_order] of C04_system_order. *)
+Theorem C04_answered_request_holds_outside_F_C04d : forall fuel beh s s2,
+  sel_ok fuel s -> (forall s', s2 = Some s' -> sel_ok fuel s') ->
+  answer_dropped beh (sel_flows s) (fst (run_req fuel beh s s2)) = false ->
+  run_req fuel beh s s2 = (req_order_text fuel beh s s2, None)
+  /\ req_order_text fuel beh s s2 = req_order fuel beh s s2.
+Proof.
+  intros fuel beh s s2 A B D. pose proof (run_req_outside fuel beh s s2 A B D) as R.
+  split; [exact R|]. apply req_order_text_eq. rewrite R. reflexivity.
+Qed.
+Print Assumptions C04_answered_request_holds_outside_F_C04d.
+
+(* ... and the finding is the ONLY way a request is abandoned on acyclic graphs:
+   the premise "snd (run_req ...) = None" of C04_system_order fails exactly when
+   some executed processor of a selected flow answered the request without
+   having a node on the response side of that flow. *)
+Theorem C04_abandoned_only_by_F_C04d : forall fuel beh s s2 o,
+  sel_ok fuel s -> (forall s', s2 = Some s' -> sel_ok fuel s') ->
+  snd (run_req fuel beh s s2) = Some o ->
+  exists k f c,
+    o = NoRespNode k /\ In f (sel_flows s)
+    /\ In {| e_flow := fname f; e_key := k; e_dir := Req; e_cond := c |} (fst (run_req fuel beh s s2))
+    /\ answers (beh (fname f)) Req k = true /\ has_node (fres f) k = false.
+Proof.
+  intros fuel beh s s2 o A B E.
+  destruct (run_req_abandoned fuel beh s s2 o E) as [O|[k [f [O [F [c [I [An H]]]]]]]].
+  - subst o. exfalso. exact (run_req_not_stuck fuel beh s s2 A B E).
+  - exists k, f, c. auto.
+Qed.
+Print Assumptions C04_abandoned_only_by_F_C04d.
+
+(* the side condition is met by the order witness (Gen has a response-side node) *)
+Example C04_outside_F_C04d_witness :
+  answer_dropped w_behs (sel_flows w_sel) (fst (run_req 6 w_behs w_sel (Some w_sel))) = false.
+Proof. vm_compute. reflexivity. Qed.
+
+(* ---- fuel ---------------------------------------------------------------------- *)
+
+(* Acyclic flows (some rank decreases along every connection - no bound asked)
+   satisfy the side condition of the theorems above with the fuel the
+   correspondence suite runs the model with (total number of nodes + 1). *)
+Theorem C04_acyclic_fuel_for : forall fs s,
+  incl (sel_flows s) fs -> Forall flow_acyclic (sel_flows s) -> sel_ok (fuel_for fs) s.
+Proof. exact acyclic_sel_ok. Qed.
+Print Assumptions C04_acyclic_fuel_for.
+
+(* in the shape the suite uses it: selections decoded over the case's flows *)
+Theorem C04_suite_fuel_is_enough : forall fs e,
+  Forall flow_acyclic fs -> sel_ok (fuel_for fs) (dec_sel fs e).
+Proof.
+  intros fs e A. apply acyclic_sel_ok; [apply dec_sel_incl|].
+  apply Forall_forall. intros f I. rewrite Forall_forall in A. apply A.
+  exact (dec_sel_incl fs e f I).
+Qed.
+Print Assumptions C04_suite_fuel_is_enough.
+
+(* Transaction level: any two fuels that are enough give the same transaction
+   (trace and result); in particular every fuel above one that is enough. *)
+Theorem C04_fuel_independent : forall f1 f2 beh s s2 sc,
+  sel_ok f1 s -> sel_ok f2 s ->
+  (forall s', s2 = Some s' -> sel_ok f1 s' /\ sel_ok f2 s') ->
+  run_req f1 beh s s2 = run_req f2 beh s s2
+  /\ run_res f1 beh s sc = run_res f2 beh s sc.
+Proof.
+  intros f1 f2 beh s s2 sc A B C. split.
+  - apply run_req_fuel_irrelevant; assumption.
+  - apply run_res_fuel_irrelevant; assumption.
+Qed.
+Print Assumptions C04_fuel_independent.
+
+Theorem C04_more_fuel_same_result : forall f1 f2 beh s s2 sc,
+  (f1 <= f2)%nat -> sel_ok f1 s -> (forall s', s2 = Some s' -> sel_ok f1 s') ->
+  run_req f1 beh s s2 = run_req f2 beh s s2
+  /\ run_res f1 beh s sc = run_res f2 beh s sc.
+Proof.
+  intros f1 f2 beh s s2 sc L A B. split.
+  - apply run_req_fuel_le; assumption.
+  - apply run_res_fuel_le; assumption.
+Qed.
+Print Assumptions C04_more_fuel_same_result.
+
+Example C04_fuel_witness :
+  Forall flow_acyclic w_flows /\ fuel_for w_flows = 10%nat
+  /\ run_req (fuel_for w_flows) w_behs w_sel (Some w_sel) = run_req 6 w_behs w_sel (Some w_sel).
+Proof.
+  split; [|vm_compute; split; reflexivity].
+  assert (E : forall g, rankedb g w_rk = true -> acyclic g).
+  { intros g H. exists w_rk. apply rankedb_sound. exact H. }
+  unfold w_flows, flow_acyclic. cbn.
+  repeat (first [apply Forall_nil | apply Forall_cons | split]); apply E; vm_compute; reflexivity.
+Qed.
+
+(* ---- "system flows of quotas run before user flows on requests and in reverse
+   order on responses", literally ----------------------------------------------------
+
+   For system flows shaped like those generated from quotas ([quota_shape]:
+   start-system flows have no response entry, end-system flows no request
+   entry) the group order of C04_system_order(_response) reads: on a request
+   every system processor runs BEFORE the user flows, on a response every system
+   processor runs AFTER them (each group in reverse selection order). *)
+Theorem C04_quota_order : forall fuel beh s,
+  quota_shape s = true ->
+  (forall sc, snd (run_res fuel beh s sc) = None ->
+     fst (run_res fuel beh s sc)
+     = flat_map (fun f => flow_events fuel beh Res (start_for sc f) f) (rev (s_user s))
+       ++ flat_map (flow_events fuel beh Res None) (rev (s_end s)))
+  /\ (forall s2, snd (run_req fuel beh s s2) = None ->
+      (forall s', s2 = Some s' -> quota_shape s' = true) ->
+      fst (run_req fuel beh s s2)
+      = flat_map (flow_events fuel beh Req None) (s_start s)
+        ++ flat_map (flow_events fuel beh Req None) (fst (users_prefix fuel beh (s_user s)))
+        ++ match snd (users_prefix fuel beh (s_user s)), s2 with
+           | Some h, Some s' =>
+               flat_map (fun f => flow_events fuel beh Res (start_for (Some h) f) f) (rev (s_user s'))
+               ++ flat_map (flow_events fuel beh Res None) (rev (s_end s'))
+           | _, _ => []
+           end).
+Proof.
+  intros fuel beh s Q. split.
+  - intros sc NE. rewrite (run_res_order fuel beh s sc NE). apply res_order_quota. exact Q.
+  - intros s2 NE Q2. rewrite (run_req_order fuel beh s s2 NE). unfold req_order.
+    rewrite (req_part_quota fuel beh s Q). cbn [app].
+    destruct (snd (users_prefix fuel beh (s_user s))) as [h|]; [|reflexivity].
+    destruct s2 as [s'|]; [|reflexivity].
+    rewrite (res_order_quota fuel beh s' (Some h) (Q2 s' eq_refl)). reflexivity.
+Qed.
+Print Assumptions C04_quota_order.
+
+(* the shape is needed: a start-system flow WITH a response entry runs before the
+   user flows on a response too (same group order in both directions) *)
+Example C04_quota_shape_needed :
+  let sys := {| fname := 100; freq := {| root := Some 10; nodes := [(10, [(0, None)])] |};
+                fres := {| root := Some 12; nodes := [(12, [(0, None)])] |} |} in
+  let s := {| s_start := [sys]; s_user := flows_named w_flows [2]; s_end := [] |} in
+  quota_shape s = false
+  /\ fst (run_res 6 w_behs s None)
+     = [ {| e_flow := 100; e_key := 12; e_dir := Res; e_cond := 0 |};
+         {| e_flow := 2; e_key := 6; e_dir := Res; e_cond := 1 |} ].
+Proof. vm_compute. split; reflexivity. Qed.
+
+Example C04_quota_shape_witness : quota_shape w_sel = true /\ quota_shape d_sel = true.
+Proof. vm_compute. split; reflexivity. Qed.
